@@ -155,6 +155,20 @@ impl<R: Read> PgnRawParser<R> {
         Ok(result)
     }
 
+    /// A movetext token: up to the next blank or line break (the delimiter is not consumed).
+    fn read_token(&mut self) -> Result<String, PgnRawParserError> {
+        let mut result = String::new();
+        let mut cur_byte = self.peek_byte()?;
+
+        while cur_byte != b' ' && cur_byte != b'\n' {
+            result.push(cur_byte as char);
+            self.skip_byte()?;
+            cur_byte = self.peek_byte()?;
+        }
+
+        Ok(result)
+    }
+
     fn read_tag_pairs(&mut self) -> Result<HashMap<String, String>, PgnRawParserError> {
         let mut result = HashMap::new();
 
@@ -206,7 +220,7 @@ impl<R: Read> PgnRawParser<R> {
     fn read_move(&mut self) -> Result<Option<PgnRawAnnotatedMove>, PgnRawParserError> {
         self.skip_blank_lines_and_spaces()?;
 
-        let token = self.read_until(b' ')?;
+        let token = self.read_token()?;
 
         let mut chars = token.chars();
         if chars.next() == Some('*') {
@@ -214,13 +228,12 @@ impl<R: Read> PgnRawParser<R> {
         }
 
         if let Some('-' | '/') = chars.next() {
-            self.skip_to_next_line()?;
             return Ok(None);
         }
 
         let mv = if token.contains('.') {
             self.skip_spaces()?;
-            self.read_until(b' ')?
+            self.read_token()?
         } else {
             token
         };
